@@ -312,6 +312,48 @@ def routing_edges(seed: int, n: int) -> List[List[dict]]:
             b += [snd("b", data(1234, 7, 0, 0, 3)), rnd("", ["b"], ["b", "c"])]
             b += [snd("b", sub(15, 7, 777)), rnd("", ["b"], ["b", "c"])]
             out.append(b)
+    # (4) several instances share one module id (allow_multiple): a message addressed to that id reaches every instance
+    for nsub in (2, 3):
+        for leave in (None, "last", "first"):
+            b = monitor_setup()
+            inst = [f"i{k}" for k in range(nsub)]
+            names = inst + ["s", "c"]
+            for c in inst + ["s"]:
+                b += [opn(c), rnd(c)]
+            for c in inst:
+                b += [snd(c, con2(20, 1, "", lg=0)), rnd("", [c], names)]
+            b += [snd("s", con2(5, 0, "s")), rnd("", ["s"], names)]
+            for c in inst:
+                b += [snd(c, sub(15, 20, 1234)), rnd("", [c], names)]
+            b += [snd("s", data(1234, 5, 20, 0, 1)), rnd("", ["s"], names)]
+            if leave:
+                gone = inst[-1] if leave == "last" else inst[0]
+                b += [snd(gone, sig(14, 20)), rnd("", [gone], names)]
+                b += [snd("s", data(1234, 5, 20, 0, 2)), rnd("", ["s"], [x for x in names if x != gone])]
+            b += [snd("s", data(1234, 5, 0, 0, 3)), rnd("", ["s"], names)]
+            out.append(b)
+    # (5) subscription requests on a socket that never sent CONNECT (the manager serves them): delivery, leaving, a later CONNECT
+    for what in ("type", "all"):
+        for then in ("stay", "fin", "rst", "connect", "refused-connect"):
+            b = monitor_setup()
+            names = ["u", "s", "c"]
+            b += [opn("s"), rnd("s"), snd("s", con2(5, 0, "s")), rnd("", ["s"], ["s", "c"])]
+            b += [opn("u"), rnd("u"), snd("u", sub(15, 0, ALL if what == "all" else 1234)), rnd("", ["u"], names)]
+            b += [snd("s", data(1234, 5, 0, 0, 1)), rnd("", ["s"], names)]
+            W = names
+            if then == "fin":
+                b += [{"a": "Fin", "c": "u"}, rnd("", ["u"], names)]
+                W = ["s", "c"]
+            elif then == "rst":
+                b += [{"a": "Rst", "c": "u"}, rnd("", ["u"], names)]
+                W = ["s", "c"]
+            elif then == "connect":
+                b += [snd("u", con2(9, 0, "late")), rnd("", ["u"], names)]
+            elif then == "refused-connect":
+                b += [snd("u", con2(5, 0, "dup")), rnd("", ["u"], names)]      # id 5 is in use: refused and closed
+                W = ["s", "c"]
+            b += [snd("s", data(1234, 5, 0, 0, 2)), rnd("", ["s"], W), snd("s", data(1234, 5, 0, 0, 3)), rnd("", ["s"], W)]
+            out.append(b)
     if n and n < len(out):
         out = random.Random(seed).sample(out, n)
     return out
@@ -344,6 +386,28 @@ def drops_with_logging(seed: int, n: int) -> List[List[dict]]:
                     b += [snd("p", data(1234, 5, 0, 0, k + 1)), rnd("", ["p"], W)]
                 b += [snd("p", data(1234, 5, 0, 0, 9)), rnd("", ["p"], names)]
                 out.append(b)
+    # a subscriber that stays stalled for a long time (more than 100 messages in a row): it is skipped, reported, and nothing else
+    for style in ("by-type", "mixed"):
+        for stalled in (1, 2):
+            cast = [(f"r{i}", 10 + i) for i in range(4)] + [("p", 5)]
+            names = [c for c, _ in cast]
+            b = []
+            for c, mid in cast:
+                b += [opn(c), rnd(c)]
+            for c, mid in cast:
+                b += [snd(c, con2(mid, 0, c))]
+            b += [rnd("", names, names)]
+            for i, (c, mid) in enumerate(cast[:-1]):
+                if style == "mixed" and i % 2:
+                    b += [snd(c, sub(15, mid, 2147483647)), rnd("", [c], names)]
+                else:
+                    for t in (1234, 33, 8):
+                        b += [snd(c, sub(15, mid, t)), rnd("", [c], names)]
+            W = [c for c in names if c != f"r{stalled}"]
+            for k in range(104):
+                b += [snd("p", data(1234, 5, 0, 0, k + 1)), rnd("", ["p"], W)]
+            b += [snd("p", data(1234, 5, 0, 0, 200)), rnd("", ["p"], names)]
+            out.append(b)
     if n and n < len(out):
         out = random.Random(seed).sample(out, n)
     return out
